@@ -11,7 +11,6 @@ import (
 	"errors"
 	"fmt"
 	"math"
-	"os"
 	"slices"
 	"strconv"
 	"strings"
@@ -430,8 +429,7 @@ Level:
 		all := false
 		switch trimmed {
 		case "help":
-			osenv.Logf("TODO: print --info/--debug help and exit")
-			os.Exit(0)
+			return &ExitError{Code: 0, Output: "TODO: print --info/--debug help"}
 		case "none":
 			lev = 0
 		case "all":
@@ -1300,6 +1298,19 @@ func (o *Options) tridgeTable() []poptOption {
 
 var errNotYetImplemented = errors.New("option not yet implemented in gokrazy/rsync")
 
+// ExitError is returned by ParseArguments when the arguments ask to print
+// something (help, version) and exit. Only a command-line main function should
+// act on it by printing Output and exiting with Code: a server that parses
+// arguments supplied by its peer must treat it like any other error.
+type ExitError struct {
+	Code   int
+	Output string
+}
+
+func (e *ExitError) Error() string {
+	return fmt.Sprintf("arguments request exit with status %d", e.Code)
+}
+
 func NewContext(opts *Options) *Context {
 	table := opts.table()
 	table = slices.Concat(opts.GokrazyClient.table(), table)
@@ -1365,8 +1376,8 @@ func (pc *Context) ParseArguments(osenv *rsyncos.Env, args []string) error {
 				// are returned and handled here.
 				switch opt {
 				case 'h':
-					fmt.Println(opts.DaemonHelp()) // tridge rsync prints help to stdout
-					os.Exit(0)                     // exit with code 0 for compatibility with tridge rsync
+					// tridge rsync prints help to stdout and exits with code 0
+					return &ExitError{Code: 0, Output: opts.DaemonHelp()}
 				case 'M':
 					return errNotYetImplemented
 
@@ -1491,10 +1502,14 @@ func (pc *Context) ParseArguments(osenv *rsyncos.Env, args []string) error {
 			return errNotYetImplemented
 
 		case OPT_INFO:
-			parseOutputWords(osenv, infoWords[:], opts.info[:], pc.poptGetOptArg(), USER_PRIORITY)
+			if err := parseOutputWords(osenv, infoWords[:], opts.info[:], pc.poptGetOptArg(), USER_PRIORITY); errors.As(err, new(*ExitError)) {
+				return err
+			}
 
 		case OPT_DEBUG:
-			parseOutputWords(osenv, debugWords[:], opts.debug[:], pc.poptGetOptArg(), USER_PRIORITY)
+			if err := parseOutputWords(osenv, debugWords[:], opts.debug[:], pc.poptGetOptArg(), USER_PRIORITY); errors.As(err, new(*ExitError)) {
+				return err
+			}
 
 		case OPT_USERMAP,
 			OPT_GROUPMAP,
@@ -1502,8 +1517,8 @@ func (pc *Context) ParseArguments(osenv *rsyncos.Env, args []string) error {
 			return errNotYetImplemented
 
 		case OPT_HELP:
-			fmt.Println(opts.Help()) // tridge rsync prints help to stdout
-			os.Exit(0)               // exit with code 0 for compatibility with tridge rsync
+			// tridge rsync prints help to stdout and exits with code 0
+			return &ExitError{Code: 0, Output: opts.Help()}
 
 		case 'A':
 			return fmt.Errorf("ACLs are not supported by gokrazy/rsync")
@@ -1525,19 +1540,16 @@ func (pc *Context) ParseArguments(osenv *rsyncos.Env, args []string) error {
 	// other options
 
 	if version_opt_cnt > 0 {
-		fmt.Println(version.Read())
-		os.Exit(0)
+		return &ExitError{Code: 0, Output: version.Read()}
 	}
 
 	if opts.human_readable > 1 && len(args) == 1 /* && !am_server */ {
-		fmt.Println(opts.Help()) // tridge rsync prints help to stdout
-		os.Exit(0)               // exit with code 0 for compatibility with tridge rsync
+		// tridge rsync prints help to stdout and exits with code 0
+		return &ExitError{Code: 0, Output: opts.Help()}
 	}
 
 	if err := opts.setOutputVerbosity(DEFAULT_PRIORITY); err != nil {
-		// TODO: plumb error
-		fmt.Println(err.Error())
-		os.Exit(1)
+		return err
 	}
 
 	if opts.recurse != 0 {
